@@ -87,3 +87,52 @@ fn bech32_one_symbol() -> String {
     for i in 0..6 { out.push(CH[((pm >> (5 * (5 - i))) & 31) as usize] as char); }
     out
 }
+
+// ---- second batch -------------------------------------------------------------------------------
+#[test]
+fn f11_set_body_hash() {
+    let body1 = "a300818258203b40265111d8bb3c3c608d95b3a0bf83461ace32d79336579a1939b3aad1c0b700018182581d611c616f1acb460668a9b2f123c80372c2adad3583b9c6cd2b1deeed1c01021a00016f32";
+    let body2 = "a300818258203b40265111d8bb3c3c608d95b3a0bf83461ace32d79336579a1939b3aad1c0b700018182581d611c616f1acb460668a9b2f123c80372c2adad3583b9c6cd2b1deeed1c02021a00016f32";
+    let mut tx = FixedTransaction::new_from_body_bytes(&hex::decode(body1).unwrap()).unwrap();
+    let h1 = tx.transaction_hash();
+    tx.set_body(&hex::decode(body2).unwrap()).unwrap();
+    let h2 = tx.transaction_hash();
+    assert_ne!(h1.to_hex(), h2.to_hex());
+    let fresh = FixedTransaction::new_from_body_bytes(&hex::decode(body2).unwrap()).unwrap();
+    assert_eq!(h2.to_hex(), fresh.transaction_hash().to_hex());
+}
+#[test]
+fn f12_int_as_negative() {
+    let min = Int::from_bytes(vec![0x3b, 0xff, 0xff, 0xff, 0xff, 0xff, 0xff, 0xff, 0xff]).unwrap(); // -2^64
+    assert_eq!(min.to_str(), "-18446744073709551616");
+    assert!(min.as_negative().is_none());
+    let m1 = Int::new_negative(&BigNum::from_str("18446744073709551615").unwrap());
+    assert_eq!(m1.as_negative().unwrap().to_str(), "18446744073709551615");
+}
+#[test]
+fn f13_mint_accumulation() {
+    let mut mb = MintBuilder::new();
+    let script = NativeScript::new_timelock_start(&TimelockStart::new_timelockstart(&BigNum::from_str("1").unwrap()));
+    let w = MintWitness::new_native_script(&NativeScriptSource::new(&script));
+    let name = AssetName::new(vec![1]).unwrap();
+    let big = Int::new(&BigNum::from_str("18446744073709551615").unwrap());
+    mb.add_asset(&w, &name, &big).unwrap();
+    assert!(mb.add_asset(&w, &name, &big).is_err());
+}
+#[test]
+fn f14_at_least_truncation() {
+    let json = r#"{"cosigners":{"cosigner#0":"self"},"template":{"some":{"at_least":4294967297,"from":["cosigner#0"]}}}"#;
+    let xpub = "1423856bc91c49e928f6f30f4e8d665d53eb4ab6028bd0ac971809d514c92db11423856bc91c49e928f6f30f4e8d665d53eb4ab6028bd0ac971809d514c92db1";
+    assert!(encode_json_str_to_native_script(json, xpub, ScriptSchema::Wallet).is_err());
+}
+#[test]
+fn f15_metadata_key_range() {
+    let m = encode_json_str_to_metadatum(r#"{"170141183460469231731687303715884105727": 1}"#.to_string(), MetadataJsonSchema::BasicConversions).unwrap();
+    let map = m.as_map().unwrap();
+    let keys = map.keys();
+    assert_eq!(keys.len(), 1);
+    // out-of-range numeric key stays text, no out-of-range Int is produced
+    assert!(keys.get(0).as_text().is_ok());
+    let m2 = encode_json_str_to_metadatum(r#"{"-5": 1}"#.to_string(), MetadataJsonSchema::BasicConversions).unwrap();
+    assert_eq!(m2.as_map().unwrap().keys().get(0).as_int().unwrap().to_str(), "-5");
+}
